@@ -12,7 +12,14 @@
    labelled stop is a stop of the data, hence the chain is at most |d_nodes| long (pigeonhole), which is
    below REBUILD_FUEL.  (The stamp plays the role of the scan position of the boarding connection; being
    ghost state, it needs neither an index function nor the pairwise distinctness of the connections.)
-   The starting label taken from r_acc needs no ordering: it costs one unit of fuel. *)
+   The starting label taken from r_acc needs no ordering: it costs one unit of fuel.
+
+   What the argument needs of the dataset (D13): NOT the whole of wf_data_b, only
+     times_monotone d     inside one trip (same c_trip) no connection arrives before an earlier-or-equal one departs
+                          and none departs before an earlier one arrived (what the loader's stop-time check gives),
+     walks_nonneg d       the reverse footpath rows read by the scan have walking times >= 0,
+     rfp_nodes_known d    ... and name stops of d_nodes (the pigeonhole is over d_nodes: REBUILD_FUEL d),
+   and 0 <= q_minw p.  The theorems are stated under these (suffix _mono); the wf_data_b versions are corollaries. *)
 From Coq Require Import List ZArith Bool Arith Lia Sorted.
 From TrV Require Import Spec Proofs.SortFilter Proofs.RevInv.
 Import ListNotations.
@@ -54,12 +61,74 @@ Proof.
   peel F2 G4. peel F2 G3. peel F2 G2. apply memb_In in F2. apply Z.leb_le in G2. split; assumption.
 Qed.
 
+(* the three dataset conditions the termination argument uses *)
+Definition times_monotone (d : data) : Prop :=
+  (forall c e, In c (all_conns d) -> In e (all_conns d) -> c_trip e = c_trip c -> (c_seq c <= c_seq e)%nat ->
+               c_dep c <= c_arr e) /\
+  (forall a b, In a (all_conns d) -> In b (all_conns d) -> c_trip a = c_trip b -> (c_seq a < c_seq b)%nat ->
+               c_arr a <= c_dep b).
+Definition walks_nonneg (d : data) : Prop :=
+  forall c r, In c (all_conns d) -> In r (rfp_of d (c_from c)) -> 0 <= fp_time r.
+Definition rfp_nodes_known (d : data) : Prop :=
+  forall c r, In c (all_conns d) -> In r (rfp_of d (c_from c)) -> In (fp_node r) (d_nodes d).
+
+Lemma wf_times_monotone d : wf_data_b d = true -> times_monotone d.
+Proof.
+  intros Hwf. split.
+  - intros c e Hc He Et Hseq. exact (conn_dep_le_arr d c e Hwf Hc He Et Hseq).
+  - intros a b Ha Hb Et Hlt.
+    destruct (all_conns_in d a Ha) as (tra & Htra & Hina).
+    destruct (all_conns_in d b Hb) as (trb & Htrb & Hinb).
+    assert (E : tra = trb).
+    { apply (nodup_nat_inj (d_trips d) (wf_nodup_trips d Hwf)); try assumption.
+      rewrite <- (trip_conns_trip d tra a Hina), <- (trip_conns_trip d trb b Hinb). exact Et. }
+    subst trb. destruct (wf_trip d Hwf tra Htra) as (pth & _ & _ & Ht).
+    unfold trip_conns in Hina, Hinb.
+    exact (mk_conns_mono _ _ _ _ _ a b Ht Hina Hinb Hlt).
+Qed.
+
+Lemma wf_walks_nonneg d : wf_data_b d = true -> walks_nonneg d.
+Proof.
+  intros Hwf c r Hc Hr.
+  exact (proj2 (wf_rfp_rows d Hwf (c_from c) (conn_from_node d c Hwf Hc) r Hr)).
+Qed.
+
+Lemma wf_rfp_nodes_known d : wf_data_b d = true -> rfp_nodes_known d.
+Proof.
+  intros Hwf c r Hc Hr.
+  exact (proj1 (wf_rfp_rows d Hwf (c_from c) (conn_from_node d c Hwf Hc) r Hr)).
+Qed.
+
+(* inside one trip the reverse order descends in sequence: needs only times_monotone *)
+Lemma conn_seq_order_mono d a b : times_monotone d -> In a (all_conns d) -> In b (all_conns d) ->
+  c_trip a = c_trip b -> rev_lt b a = false -> (c_seq b <= c_seq a)%nat.
+Proof.
+  intros [M1 M2] Ha Hb Et Hlt.
+  destruct (le_lt_dec (c_seq b) (c_seq a)) as [Hle|Hgt]; [exact Hle|exfalso].
+  pose proof (M2 a b Ha Hb Et Hgt) as M.
+  pose proof (M1 b b Hb Hb eq_refl (le_n _)) as Mb.
+  assert (T : rev_lt b a = true) by (apply rev_lt_iff; lia).
+  congruence.
+Qed.
+
+Lemma cs_rev_seq_sorted_mono d s : times_monotone d -> StronglySorted seq_desc (cs_rev (conn_set d s)).
+Proof.
+  intros Hm.
+  apply (StronglySorted_impl_in (le_of rev_lt)).
+  - intros a b Ha Hb Hle Et. apply cs_rev_in in Ha. apply cs_rev_in in Hb.
+    apply (conn_seq_order_mono d a b Hm (proj1 Ha) (proj1 Hb) Et Hle).
+  - unfold conn_set, mk_connset, sorted_rev. cbn [cs_rev]. rewrite filter_isort_rev.
+    apply (isort_sorted rev_lt rev_lt_asym rev_lt_negtrans).
+Qed.
+
 (* ---------------------------------------------------------------------------------------------- *)
 (* 2. the chain invariant                                                                           *)
 
 Section Chain.
   Variables (d : data) (s : scenario) (p : params) (k : calc).
-  Hypothesis Hwf : wf_data_b d = true.
+  Hypothesis Hmono : times_monotone d.
+  Hypothesis Hwalk : walks_nonneg d.
+  Hypothesis Hknown : rfp_nodes_known d.
   Hypothesis Hminw : 0 <= q_minw p.
 
   (* stamp n = number of the scan step that wrote the label currently stored at n (ghost state);
@@ -148,45 +217,114 @@ Section Chain.
 
   Definition TInv (t : nat) (st : rstate) : Prop := exists stamp, TI t (r_taur st) (r_steps st) stamp.
 
-  Lemma rev_step_tinv c rest st t :
-    good d s p k c -> RInv d s p k (c :: rest) st -> TInv t st ->
-    TInv (S t) (rev_step d p k false st c).
+  (* the footpath loop only raises taur, and labels only stops named by the rows *)
+  Lemma fp_fold_taur_mono c e : forall rows taur steps racc n,
+    taur n <= fst (fst (fold_left (rev_fp_step p k c (minw_eff p c) (Some e)) rows (taur, steps, racc))) n.
   Proof.
-    intros [Hc _] [HI HO] (stamp & HT).
+    induction rows as [|r rows IH]; intros taur steps racc n; cbn [fold_left fst]; [lia|].
+    destruct (rev_fp_step_cases p k c (minw_eff p c) (Some e) taur steps racc r)
+      as (t' & s' & a' & E & H1 & _).
+    rewrite E. specialize (IH t' s' a' n).
+    destruct H1 as [[E1 E2]|(_ & Hgt & E1 & E2)]; subst t' s'; [exact IH|].
+    pose proof (upd_mono taur (fp_node r) _ Hgt n) as M. lia.
+  Qed.
+
+  Definition NI (steps : nat -> jstep) : Prop := forall n b, js_enter (steps n) = Some b -> In n (d_nodes d).
+
+  Lemma fp_fold_ni c e : forall rows, (forall r, In r rows -> In (fp_node r) (d_nodes d)) ->
+    forall taur steps racc, NI steps ->
+    NI (snd (fst (fold_left (rev_fp_step p k c (minw_eff p c) (Some e)) rows (taur, steps, racc)))).
+  Proof.
+    induction rows as [|r rows IH]; intros Hrows taur steps racc HN; cbn [fold_left fst snd]; [exact HN|].
+    destruct (rev_fp_step_cases p k c (minw_eff p c) (Some e) taur steps racc r)
+      as (t' & s' & a' & E & H1 & _).
+    rewrite E.
+    assert (Hrows' : forall r0, In r0 rows -> In (fp_node r0) (d_nodes d)) by (intros r0 H0; apply Hrows; right; exact H0).
+    apply (IH Hrows').
+    destruct H1 as [[E1 E2]|(_ & _ & E1 & E2)]; subst t' s'; [exact HN|].
+    intros n b Hb. destruct (Nat.eq_dec n (fp_node r)) as [En|En].
+    - subst n. apply Hrows. left. reflexivity.
+    - rewrite upd_other in Hb by exact En. apply (HN n b Hb).
+  Qed.
+
+  (* what the scan keeps true of the trip overlays (the part of RevInv's invariant the chain needs; no reference
+     to the rest of the dataset): the exit of a trip is a connection of that trip whose arrival stop is reached in
+     time, and the connections of the trip still to come lie at or before it *)
+  Definition XI (taur : nat -> Z) (ov : nat -> tqd) : Prop :=
+    forall t e, o_exit (ov t) = Some e -> In e (all_conns d) /\ c_trip e = t /\ c_arr e <= taur (c_to e).
+
+  Definition SInv (rest : list conn) (st : rstate) : Prop :=
+    XI (r_taur st) (r_ov st) /\ ord (r_ov st) rest /\ NI (r_steps st).
+
+  Lemma XI_mono taur taur' ov : (forall x, taur x <= taur' x) -> XI taur ov -> XI taur' ov.
+  Proof.
+    intros M HX t e He. destruct (HX t e He) as (X1 & X2 & X3).
+    split; [exact X1|]. split; [exact X2|]. specialize (M (c_to e)). lia.
+  Qed.
+
+  Lemma rev_step_sinv c rest st t :
+    In c (all_conns d) -> Forall (seq_desc c) rest -> SInv (c :: rest) st -> TInv t st ->
+    SInv rest (rev_step d p k false st c) /\ TInv (S t) (rev_step d p k false st c).
+  Proof.
+    intros Hc Hsorted (HX & HO & HN) (stamp & HT).
     pose proof (rev_step_spec d p k st c) as S. cbv zeta in S.
-    destruct S as [(E1 & E2 & _ & _)|(_ & Hq & _ & Hrest)].
-    - exists stamp. rewrite E1, E2. apply (TI_weaken t); [lia|exact HT].
-    - destruct Hrest as [(E1 & E2 & _)|(_ & e & Ee & Ef)].
+    destruct S as [(E1 & E2 & E3 & _)|(_ & Hq & Eov & Hrest)].
+    - split.
+      + unfold SInv. rewrite E1, E2, E3. split; [exact HX|]. split; [|exact HN].
+        intros c' e Hc' He. apply (HO c' e); [right; exact Hc'|exact He].
       + exists stamp. rewrite E1, E2. apply (TI_weaken t); [lia|exact HT].
-      + pose proof (ov1_exit_cases p st c Hminw Hq) as Hex.
-        assert (Hfacts : In e (all_conns d) /\ c_trip e = c_trip c /\ (c_seq c <= c_seq e)%nat /\
-                         c_arr e <= r_taur st (c_to e)).
-        { destruct Hex as [Hex|(Hex & _ & Harr)].
-          - rewrite Hex in Ee. destruct (i_ov _ _ _ _ _ _ _ _ HI _ _ Ee) as (X1 & X2 & _ & X4).
-            repeat split; try assumption. apply (HO c e); [left; reflexivity|exact Ee].
-          - rewrite Hex in Ee. inversion Ee; subst e. repeat split; try assumption. apply le_n. }
-        destruct Hfacts as (He & Etrip & Hseq & Harr).
-        pose proof (conn_dep_le_arr d c e Hwf Hc He Etrip Hseq) as Hde.
-        pose proof (conn_from_node d c Hwf Hc) as Hnode.
+    - pose proof (ov1_exit_cases p st c Hminw Hq) as Hex.
+      set (ov1 := ov1_of p st c) in *. set (ovm := upd (r_ov st) (c_trip c) ov1) in *.
+      assert (HX1 : XI (r_taur st) ovm).
+      { intros t0 e He. subst ovm. destruct (Nat.eq_dec t0 (c_trip c)) as [Et|Et].
+        - subst t0. rewrite upd_same in He. destruct Hex as [Hex|(Hex & _ & Harr)].
+          + rewrite Hex in He. apply (HX _ _ He).
+          + rewrite Hex in He. inversion He; subst e. split; [exact Hc|]. split; [reflexivity|exact Harr].
+        - rewrite upd_other in He by exact Et. apply (HX _ _ He). }
+      assert (HO1 : ord ovm rest).
+      { intros c' e Hc' He. subst ovm. destruct (Nat.eq_dec (c_trip c') (c_trip c)) as [Et|Et].
+        - rewrite Et, upd_same in He. destruct Hex as [Hex|(Hex & _ & _)].
+          + rewrite Hex, <- Et in He. apply (HO c' e); [right; exact Hc'|exact He].
+          + rewrite Hex in He. inversion He; subst e.
+            rewrite Forall_forall in Hsorted. apply (Hsorted c' Hc'). symmetry. exact Et.
+        - rewrite upd_other in He by exact Et. apply (HO c' e); [right; exact Hc'|exact He]. }
+      destruct Hrest as [(E1 & E2 & _)|(_ & e & Ee & Ef)].
+      + split.
+        * unfold SInv. rewrite E1, E2, Eov. split; [exact HX1|]. split; [exact HO1|exact HN].
+        * exists stamp. rewrite E1, E2. apply (TI_weaken t); [lia|exact HT].
+      + assert (Hovm : o_exit (ovm (c_trip c)) = Some e) by (subst ovm; rewrite upd_same; exact Ee).
+        destruct (HX1 _ _ Hovm) as (He & Etrip & Harr).
+        assert (Hseq : (c_seq c <= c_seq e)%nat).
+        { destruct Hex as [Hex|(Hex & _ & _)].
+          - rewrite Hex in Ee. apply (HO c e); [left; reflexivity|exact Ee].
+          - rewrite Hex in Ee. inversion Ee; subst e. apply le_n. }
+        pose proof (proj1 Hmono c e Hc He Etrip Hseq) as Hde.
         assert (Hrows : forall r, In r (rfp_of d (c_from c)) -> 0 <= fp_time r).
-        { intros r Hr. exact (proj2 (wf_rfp_rows d Hwf (c_from c) Hnode r Hr)). }
+        { intros r Hr. exact (Hwalk c r Hc Hr). }
+        assert (Hnodes : forall r, In r (rfp_of d (c_from c)) -> In (fp_node r) (d_nodes d)).
+        { intros r Hr. exact (Hknown c r Hc Hr). }
         assert (HF : FI (S t) e (r_taur st) (r_steps st) stamp).
         { split; [apply (TI_weaken t); [lia|exact HT]|]. split; [exact Harr|].
           intros b' Hb'. pose proof (ti_stamp _ _ _ _ HT _ _ Hb'). lia. }
         destruct (FI_fold (S t) c e Hde (rfp_of d (c_from c)) Hrows (r_taur st) (r_steps st) (r_acc st) stamp HF)
           as (stamp' & HF').
-        rewrite <- Ef in HF'. cbn [fst snd] in HF'. exists stamp'. exact (proj1 HF').
+        pose proof (fp_fold_taur_mono c e (rfp_of d (c_from c)) (r_taur st) (r_steps st) (r_acc st)) as M.
+        pose proof (fp_fold_ni c e (rfp_of d (c_from c)) Hnodes (r_taur st) (r_steps st) (r_acc st) HN) as HN'.
+        rewrite <- Ef in HF', M, HN'. cbn [fst snd] in HF', M, HN'.
+        split.
+        * unfold SInv. rewrite Eov. split; [apply (XI_mono (r_taur st)); [exact M|exact HX1]|].
+          split; [exact HO1|exact HN'].
+        * exists stamp'. exact (proj1 HF').
   Qed.
 
-  Lemma scan_tinv : forall L st t, Forall (good d s p k) L -> StronglySorted seq_desc L ->
-    RInv d s p k L st -> TInv t st ->
-    exists t', TInv t' (fold_left (rev_step d p k false) L st).
+  Lemma scan_sinv : forall L st t, (forall c, In c L -> In c (all_conns d)) -> StronglySorted seq_desc L ->
+    SInv L st -> TInv t st ->
+    exists t', SInv [] (fold_left (rev_step d p k false) L st) /\ TInv t' (fold_left (rev_step d p k false) L st).
   Proof.
-    induction L as [|c L IH]; intros st t HG HS HR HT; cbn [fold_left]; [exists t; exact HT|].
+    induction L as [|c L IH]; intros st t HG HS HR HT; cbn [fold_left]; [exists t; split; assumption|].
     apply StronglySorted_inv in HS. destruct HS as [HS1 HS2].
-    apply (IH _ (S t)); [exact (Forall_inv_tail HG)|exact HS1| |].
-    - apply rev_step_inv; [exact Hminw|exact (Forall_inv HG)|exact HS2|exact HR].
-    - apply (rev_step_tinv c L); [exact (Forall_inv HG)|exact HR|exact HT].
+    destruct (rev_step_sinv c L st t (HG c (or_introl eq_refl)) HS2 HR HT) as [HR' HT'].
+    apply (IH _ (S t)); [intros c' Hc'; apply HG; right; exact Hc'|exact HS1|exact HR'|exact HT'].
   Qed.
 
   (* ---------------------------------------------------------------------------------------------- *)
@@ -240,36 +378,40 @@ End Chain.
 (* ---------------------------------------------------------------------------------------------- *)
 (* 4. the theorem                                                                                   *)
 
-(* the chain invariant holds in the final state of the scan *)
+(* the chain invariant holds in the final state of the scan, and every labelled stop is a stop of the data *)
+Lemma rev_scan_tinv_mono d s p acc egr k st :
+  times_monotone d -> walks_nonneg d -> rfp_nodes_known d -> 0 <= q_minw p -> rev_pre d s p acc egr k ->
+  rev_scan d p k false = Ok st ->
+  (exists t stamp, TI t (r_taur st) (r_steps st) stamp) /\ NI d (r_steps st).
+Proof.
+  intros Hmono Hwalk Hknown Hminw Hpre Hscan.
+  unfold rev_scan in Hscan. destruct (rev_entry (k_set k) (hour_of (k_arr k) + 1)) as [i|]; [|discriminate].
+  rewrite (rp_set _ _ _ _ _ _ Hpre) in Hscan. inversion Hscan as [Hst]. clear Hscan.
+  set (L := skipn i (cs_rev (conn_set d s))).
+  assert (HG : forall c, In c L -> In c (all_conns d)).
+  { intros c Hc. subst L. apply in_skipn in Hc. apply cs_rev_in in Hc. exact (proj1 Hc). }
+  assert (HS : StronglySorted seq_desc L).
+  { subst L. apply StronglySorted_skipn. apply cs_rev_seq_sorted_mono. exact Hmono. }
+  assert (H0 : SInv d L (rev_init k)).
+  { unfold SInv, rev_init. cbn [r_taur r_steps r_acc r_ov]. split; [|split].
+    - intros t e He. rewrite (rp_exit _ _ _ _ _ _ Hpre) in He. discriminate.
+    - intros c' e _ He. rewrite (rp_exit _ _ _ _ _ _ Hpre) in He. discriminate.
+    - intros n b Hb. rewrite (rp_steps _ _ _ _ _ _ Hpre), seed_steps_enter in Hb. discriminate. }
+  assert (T0 : TInv 0 (rev_init k)).
+  { exists (fun _ => 0%nat). unfold rev_init. cbn [r_taur r_steps].
+    constructor; intros n b; rewrite (rp_steps _ _ _ _ _ _ Hpre), seed_steps_enter; discriminate. }
+  destruct (scan_sinv d p k Hmono Hwalk Hknown Hminw L (rev_init k) 0%nat HG HS H0 T0) as (t' & (_ & _ & HN) & (stamp & HT)).
+  split; [exists t', stamp; exact HT|exact HN].
+Qed.
+
 Lemma rev_scan_tinv d s p acc egr k st :
   wf_data_b d = true -> wf_params_b p = true -> rev_pre d s p acc egr k ->
   rev_scan d p k false = Ok st ->
   exists t stamp, TI t (r_taur st) (r_steps st) stamp.
 Proof.
-  intros Hwf Hp Hpre Hscan. pose proof (wf_params_minw p Hp) as Hminw.
-  unfold rev_scan in Hscan. destruct (rev_entry (k_set k) (hour_of (k_arr k) + 1)) as [i|]; [|discriminate].
-  rewrite (rp_set _ _ _ _ _ _ Hpre) in Hscan. inversion Hscan as [Hst]. clear Hscan.
-  set (L := skipn i (cs_rev (conn_set d s))).
-  assert (HG : Forall (good d s p k) L).
-  { apply Forall_forall. intros c Hc. subst L. apply in_skipn in Hc. apply cs_rev_in in Hc.
-    destruct Hc as [Hc Hm]. split; [exact Hc|]. intros Hdis.
-    apply (admitted_bridge d s p (c_trip c) (wf_nodup_trips d Hwf)). split; [exact Hm|].
-    rewrite <- (rp_dis _ _ _ _ _ _ Hpre). exact Hdis. }
-  assert (HS : StronglySorted seq_desc L).
-  { subst L. apply StronglySorted_skipn. apply cs_rev_seq_sorted. exact Hwf. }
-  assert (H0 : RInv d s p k L (rev_init k)).
-  { unfold RInv, rev_init. cbn [r_taur r_steps r_acc r_ov]. split.
-    - constructor.
-      + intros n b Hb. rewrite (rp_steps _ _ _ _ _ _ Hpre), seed_steps_enter in Hb. discriminate.
-      + intros n _. reflexivity.
-      + intros t e He. rewrite (rp_exit _ _ _ _ _ _ Hpre) in He. discriminate.
-      + intros n j Hj. discriminate.
-    - intros c' e _ He. rewrite (rp_exit _ _ _ _ _ _ Hpre) in He. discriminate. }
-  assert (T0 : TInv 0 (rev_init k)).
-  { exists (fun _ => 0%nat). unfold rev_init. cbn [r_taur r_steps].
-    constructor; intros n b; rewrite (rp_steps _ _ _ _ _ _ Hpre), seed_steps_enter; discriminate. }
-  destruct (scan_tinv d s p k Hwf Hminw L (rev_init k) 0%nat HG HS H0 T0) as (t' & stamp & HT).
-  exists t', stamp. exact HT.
+  intros Hwf Hp Hpre Hscan.
+  exact (proj1 (rev_scan_tinv_mono d s p acc egr k st (wf_times_monotone d Hwf) (wf_walks_nonneg d Hwf)
+                  (wf_rfp_nodes_known d Hwf) (wf_params_minw p Hp) Hpre Hscan)).
 Qed.
 
 (* every stop carrying a label with connections is a stop of the data *)
@@ -288,25 +430,45 @@ Lemma REBUILD_FUEL_S d : REBUILD_FUEL d = S (4 * length (d_nodes d) + 63).
 Proof. unfold REBUILD_FUEL. lia. Qed.
 
 (* from any starting label, following the stop labels of the final state ends within |d_nodes| + 1 steps *)
-Lemma rebuild_terminates_from : forall d s p acc egr k st start acc0 last0,
-  wf_data_b d = true -> wf_params_b p = true -> rev_pre d s p acc egr k ->
+Lemma rebuild_terminates_from_mono : forall d s p acc egr k st start acc0 last0,
+  times_monotone d -> walks_nonneg d -> rfp_nodes_known d -> 0 <= q_minw p -> rev_pre d s p acc egr k ->
   rev_scan d p k false = Ok st ->
   exists legs last, rebuild (REBUILD_FUEL d) (r_steps st) start acc0 last0 = Some (legs, last).
 Proof.
-  intros d s p acc egr k st start acc0 last0 Hwf Hp Hpre Hscan.
-  pose proof (rev_scan_inv d s p acc egr k st Hwf Hp Hpre Hscan) as HI.
-  destruct (rev_scan_tinv d s p acc egr k st Hwf Hp Hpre Hscan) as (t & stamp & HT).
+  intros d s p acc egr k st start acc0 last0 Hmono Hwalk Hknown Hminw Hpre Hscan.
+  destruct (rev_scan_tinv_mono d s p acc egr k st Hmono Hwalk Hknown Hminw Hpre Hscan) as ((t & stamp & HT) & HN).
   destruct (js_enter start) as [b0|] eqn:Eb;
     [|exists acc0, last0; apply rebuild_stop; left; exact Eb].
   destruct (js_exit start) as [e0|] eqn:Ee;
     [|exists acc0, last0; apply rebuild_stop; right; exact Ee].
   rewrite REBUILD_FUEL_S. rewrite (rebuild_step _ (r_steps st) start acc0 last0 b0 e0 Eb Ee).
   apply (rebuild_fuel_ok (d_nodes d) t (r_taur st) (r_steps st) stamp HT) with (visited := []).
-  - intros n b e Hb _. apply (labelled_in_nodes d s p k _ _ _ _ n b Hwf HI Hb).
+  - intros n b e Hb _. apply (HN n b Hb).
   - constructor.
   - intros x Hx. destruct Hx.
   - intros b e _ _ v Hv. destruct Hv.
   - cbn [length]. lia.
+Qed.
+
+Lemma rebuild_terminates_from : forall d s p acc egr k st start acc0 last0,
+  wf_data_b d = true -> wf_params_b p = true -> rev_pre d s p acc egr k ->
+  rev_scan d p k false = Ok st ->
+  exists legs last, rebuild (REBUILD_FUEL d) (r_steps st) start acc0 last0 = Some (legs, last).
+Proof.
+  intros d s p acc egr k st start acc0 last0 Hwf Hp Hpre Hscan.
+  exact (rebuild_terminates_from_mono d s p acc egr k st start acc0 last0 (wf_times_monotone d Hwf)
+           (wf_walks_nonneg d Hwf) (wf_rfp_nodes_known d Hwf) (wf_params_minw p Hp) Hpre Hscan).
+Qed.
+
+(* D13: termination of the itinerary rebuild from what the loaders guarantee plus non-negative walking times *)
+Theorem rebuild_terminates_mono : forall d s p acc egr k st node start,
+  times_monotone d -> walks_nonneg d -> rfp_nodes_known d -> 0 <= q_minw p -> rev_pre d s p acc egr k ->
+  rev_scan d p k false = Ok st ->
+  r_acc st node = Some start ->
+  exists legs last, rebuild (REBUILD_FUEL d) (r_steps st) start [] None = Some (legs, last).
+Proof.
+  intros d s p acc egr k st node start Hmono Hwalk Hknown Hminw Hpre Hscan _.
+  apply (rebuild_terminates_from_mono d s p acc egr k st start [] None Hmono Hwalk Hknown Hminw Hpre Hscan).
 Qed.
 
 Theorem rebuild_terminates : forall d s p acc egr k st node start,
@@ -315,13 +477,37 @@ Theorem rebuild_terminates : forall d s p acc egr k st node start,
   r_acc st node = Some start ->
   exists legs last, rebuild (REBUILD_FUEL d) (r_steps st) start [] None = Some (legs, last).
 Proof.
-  intros d s p acc egr k st node start Hwf Hp Hpre Hscan _.
-  apply (rebuild_terminates_from d s p acc egr k st start [] None Hwf Hp Hpre Hscan).
+  intros d s p acc egr k st node start Hwf Hp Hpre Hscan Hstart.
+  exact (rebuild_terminates_mono d s p acc egr k st node start (wf_times_monotone d Hwf)
+           (wf_walks_nonneg d Hwf) (wf_rfp_nodes_known d Hwf) (wf_params_minw p Hp) Hpre Hscan Hstart).
 Qed.
-
 
 (* hence the single-route calculation never hangs in the rebuild loop: the only way rev_journey (and
    calc_reverse) can answer Hang is the fuel of optimizeJourney *)
+Corollary rev_journey_no_rebuild_hang_mono : forall d s p acc egr k st best,
+  times_monotone d -> walks_nonneg d -> rfp_nodes_known d -> 0 <= q_minw p -> rev_pre d s p acc egr k ->
+  rev_scan d p k false = Ok st ->
+  rev_journey d p k st best = Hang ->
+  exists bestdep node start legs ln ar er,
+    best = Some (bestdep, node) /\ r_acc st node = Some start /\
+    rebuild (REBUILD_FUEL d) (r_steps st) start [] None = Some (legs, Some ln) /\
+    row_of node (k_accfp k) = Some ar /\ row_of ln (k_egrfp k) = Some er /\
+    optimize (OPT_FUEL d) d (walk_step ar :: legs ++ [walk_step er]) [] [] = OptHang.
+Proof.
+  intros d s p acc egr k st best Hmono Hwalk Hknown Hminw Hpre Hscan H. unfold rev_journey in H.
+  destruct best as [[bestdep node]|]; [|discriminate].
+  destruct (r_acc st node) as [start|] eqn:Hstart; [|discriminate].
+  destruct (rebuild_terminates_mono d s p acc egr k st node start Hmono Hwalk Hknown Hminw Hpre Hscan Hstart)
+    as (legs & last & Hreb).
+  rewrite Hreb in H.
+  destruct (row_of node (k_accfp k)) as [ar|] eqn:Har; [|discriminate].
+  destruct last as [ln|]; [|discriminate].
+  destruct (row_of ln (k_egrfp k)) as [er|] eqn:Her; [|discriminate].
+  destruct (optimize (OPT_FUEL d) d (walk_step ar :: legs ++ [walk_step er]) [] []) as [js1 used| |] eqn:Hopt;
+    try discriminate.
+  exists bestdep, node, start, legs, ln, ar, er. repeat split; try assumption; reflexivity.
+Qed.
+
 Corollary rev_journey_no_rebuild_hang : forall d s p acc egr k st best,
   wf_data_b d = true -> wf_params_b p = true -> rev_pre d s p acc egr k ->
   rev_scan d p k false = Ok st ->
@@ -332,21 +518,33 @@ Corollary rev_journey_no_rebuild_hang : forall d s p acc egr k st best,
     row_of node (k_accfp k) = Some ar /\ row_of ln (k_egrfp k) = Some er /\
     optimize (OPT_FUEL d) d (walk_step ar :: legs ++ [walk_step er]) [] [] = OptHang.
 Proof.
-  intros d s p acc egr k st best Hwf Hp Hpre Hscan H. unfold rev_journey in H.
-  destruct best as [[bestdep node]|]; [|discriminate].
-  destruct (r_acc st node) as [start|] eqn:Hstart; [|discriminate].
-  destruct (rebuild_terminates d s p acc egr k st node start Hwf Hp Hpre Hscan Hstart) as (legs & last & Hreb).
-  rewrite Hreb in H.
-  destruct (row_of node (k_accfp k)) as [ar|] eqn:Har; [|discriminate].
-  destruct last as [ln|]; [|discriminate].
-  destruct (row_of ln (k_egrfp k)) as [er|] eqn:Her; [|discriminate].
-  destruct (optimize (OPT_FUEL d) d (walk_step ar :: legs ++ [walk_step er]) [] []) as [js1 used| |] eqn:Hopt;
-    try discriminate.
-  exists bestdep, node, start, legs, ln, ar, er. repeat split; try assumption; reflexivity.
+  intros d s p acc egr k st best Hwf Hp Hpre Hscan H.
+  exact (rev_journey_no_rebuild_hang_mono d s p acc egr k st best (wf_times_monotone d Hwf)
+           (wf_walks_nonneg d Hwf) (wf_rfp_nodes_known d Hwf) (wf_params_minw p Hp) Hpre Hscan H).
 Qed.
 
 Lemma rev_scan_not_hang d p k a : rev_scan d p k a <> Hang.
 Proof. unfold rev_scan. destruct (rev_entry (k_set k) (hour_of (k_arr k) + 1)); discriminate. Qed.
+
+Corollary calc_reverse_hang_only_optimize_mono : forall d s p acc egr k,
+  times_monotone d -> walks_nonneg d -> rfp_nodes_known d -> 0 <= q_minw p -> rev_pre d s p acc egr k ->
+  calc_reverse d p k = Hang ->
+  exists st bestdep node start legs ln ar er,
+    rev_scan d p k false = Ok st /\ best_access p k st = Some (bestdep, node) /\
+    r_acc st node = Some start /\
+    rebuild (REBUILD_FUEL d) (r_steps st) start [] None = Some (legs, Some ln) /\
+    row_of node (k_accfp k) = Some ar /\ row_of ln (k_egrfp k) = Some er /\
+    optimize (OPT_FUEL d) d (walk_step ar :: legs ++ [walk_step er]) [] [] = OptHang.
+Proof.
+  intros d s p acc egr k Hmono Hwalk Hknown Hminw Hpre H. unfold calc_reverse in H.
+  pose proof (rev_scan_not_hang d p k false) as Hnh.
+  destruct (rev_scan d p k false) as [st| | | | | | | |] eqn:Hscan; cbn [bind] in H; try discriminate;
+    [|exfalso; apply Hnh; reflexivity].
+  destruct (r_count st =? 0); [discriminate|].
+  destruct (rev_journey_no_rebuild_hang_mono d s p acc egr k st _ Hmono Hwalk Hknown Hminw Hpre Hscan H)
+    as (bestdep & node & start & legs & ln & ar & er & H1 & H2 & H3 & H4 & H5 & H6).
+  exists st, bestdep, node, start, legs, ln, ar, er. repeat split; assumption.
+Qed.
 
 Corollary calc_reverse_hang_only_optimize : forall d s p acc egr k,
   wf_data_b d = true -> wf_params_b p = true -> rev_pre d s p acc egr k ->
@@ -358,14 +556,9 @@ Corollary calc_reverse_hang_only_optimize : forall d s p acc egr k,
     row_of node (k_accfp k) = Some ar /\ row_of ln (k_egrfp k) = Some er /\
     optimize (OPT_FUEL d) d (walk_step ar :: legs ++ [walk_step er]) [] [] = OptHang.
 Proof.
-  intros d s p acc egr k Hwf Hp Hpre H. unfold calc_reverse in H.
-  pose proof (rev_scan_not_hang d p k false) as Hnh.
-  destruct (rev_scan d p k false) as [st| | | | | | | |] eqn:Hscan; cbn [bind] in H; try discriminate;
-    [|exfalso; apply Hnh; reflexivity].
-  destruct (r_count st =? 0); [discriminate|].
-  destruct (rev_journey_no_rebuild_hang d s p acc egr k st _ Hwf Hp Hpre Hscan H)
-    as (bestdep & node & start & legs & ln & ar & er & H1 & H2 & H3 & H4 & H5 & H6).
-  exists st, bestdep, node, start, legs, ln, ar, er. repeat split; assumption.
+  intros d s p acc egr k Hwf Hp Hpre H.
+  exact (calc_reverse_hang_only_optimize_mono d s p acc egr k (wf_times_monotone d Hwf)
+           (wf_walks_nonneg d Hwf) (wf_rfp_nodes_known d Hwf) (wf_params_minw p Hp) Hpre H).
 Qed.
 
 (* ---------------------------------------------------------------------------------------------- *)
@@ -435,22 +628,33 @@ Proof.
   intros H. destruct H. constructor; assumption.   (* every field reads components allnodes_calc keeps *)
 Qed.
 
+Theorem rebuild_terminates_allnodes_mono : forall d s p acc egr k st node start,
+  times_monotone d -> walks_nonneg d -> rfp_nodes_known d -> 0 <= q_minw p -> rev_pre d s p acc egr k ->
+  rev_scan d p k true = Ok st ->
+  r_acc st node = Some start ->
+  exists legs last, rebuild (REBUILD_FUEL d) (r_steps st) start [] None = Some (legs, last).
+Proof.
+  intros d s p acc egr k st node start Hmono Hwalk Hknown Hminw Hpre Hscan _.
+  destruct (rev_scan_allnodes_sim d p k st Hscan) as (st' & Hscan' & (_ & Esteps & _)).
+  rewrite Esteps.
+  apply (rebuild_terminates_from_mono d s p acc egr (allnodes_calc k) st' start [] None Hmono Hwalk Hknown Hminw
+                                      (rev_pre_allnodes d s p acc egr k Hpre) Hscan').
+Qed.
+
 Theorem rebuild_terminates_allnodes : forall d s p acc egr k st node start,
   wf_data_b d = true -> wf_params_b p = true -> rev_pre d s p acc egr k ->
   rev_scan d p k true = Ok st ->
   r_acc st node = Some start ->
   exists legs last, rebuild (REBUILD_FUEL d) (r_steps st) start [] None = Some (legs, last).
 Proof.
-  intros d s p acc egr k st node start Hwf Hp Hpre Hscan _.
-  destruct (rev_scan_allnodes_sim d p k st Hscan) as (st' & Hscan' & (_ & Esteps & _)).
-  rewrite Esteps.
-  apply (rebuild_terminates_from d s p acc egr (allnodes_calc k) st' start [] None Hwf Hp
-                                 (rev_pre_allnodes d s p acc egr k Hpre) Hscan').
+  intros d s p acc egr k st node start Hwf Hp Hpre Hscan Hstart.
+  exact (rebuild_terminates_allnodes_mono d s p acc egr k st node start (wf_times_monotone d Hwf)
+           (wf_walks_nonneg d Hwf) (wf_rfp_nodes_known d Hwf) (wf_params_minw p Hp) Hpre Hscan Hstart).
 Qed.
 
 (* reverseJourneyStepAllNodes: the loop over the stops can only hang in optimizeJourney *)
-Corollary rev_allnodes_loop_hang_only_optimize : forall d s p acc egr k st,
-  wf_data_b d = true -> wf_params_b p = true -> rev_pre d s p acc egr k ->
+Corollary rev_allnodes_loop_hang_only_optimize_mono : forall d s p acc egr k st,
+  times_monotone d -> walks_nonneg d -> rfp_nodes_known d -> 0 <= q_minw p -> rev_pre d s p acc egr k ->
   rev_scan d p k true = Ok st ->
   forall nodes, rev_allnodes_loop d p k st nodes = Hang ->
   exists n start legs ln er,
@@ -459,7 +663,7 @@ Corollary rev_allnodes_loop_hang_only_optimize : forall d s p acc egr k st,
     row_of ln (k_egrfp k) = Some er /\
     optimize (OPT_FUEL d) d (legs ++ [walk_step er]) [] [] = OptHang.
 Proof.
-  intros d s p acc egr k st Hwf Hp Hpre Hscan.
+  intros d s p acc egr k st Hmono Hwalk Hknown Hminw Hpre Hscan.
   induction nodes as [|n r IH]; intros H; cbn [rev_allnodes_loop] in H; [discriminate|].
   assert (Hrec : rev_allnodes_loop d p k st r = Hang ->
                  exists n0 start legs ln er,
@@ -470,7 +674,7 @@ Proof.
   { intros Hr. destruct (IH Hr) as (n0 & start & legs & ln & er & X1 & X2).
     exists n0, start, legs, ln, er. split; [right; exact X1|exact X2]. }
   destruct (r_acc st n) as [start|] eqn:Hstart; [|apply Hrec; exact H].
-  destruct (rebuild_terminates_allnodes d s p acc egr k st n start Hwf Hp Hpre Hscan Hstart)
+  destruct (rebuild_terminates_allnodes_mono d s p acc egr k st n start Hmono Hwalk Hknown Hminw Hpre Hscan Hstart)
     as (legs & last & Hreb).
   rewrite Hreb in H.
   destruct last as [ln|]; [|discriminate].
@@ -484,6 +688,26 @@ Proof.
   - exists n, start, legs, ln, er. split; [left; reflexivity|]. repeat split; assumption.
 Qed.
 
+Corollary rev_allnodes_loop_hang_only_optimize : forall d s p acc egr k st,
+  wf_data_b d = true -> wf_params_b p = true -> rev_pre d s p acc egr k ->
+  rev_scan d p k true = Ok st ->
+  forall nodes, rev_allnodes_loop d p k st nodes = Hang ->
+  exists n start legs ln er,
+    In n nodes /\ r_acc st n = Some start /\
+    rebuild (REBUILD_FUEL d) (r_steps st) start [] None = Some (legs, Some ln) /\
+    row_of ln (k_egrfp k) = Some er /\
+    optimize (OPT_FUEL d) d (legs ++ [walk_step er]) [] [] = OptHang.
+Proof.
+  intros d s p acc egr k st Hwf Hp Hpre Hscan.
+  exact (rev_allnodes_loop_hang_only_optimize_mono d s p acc egr k st (wf_times_monotone d Hwf)
+           (wf_walks_nonneg d Hwf) (wf_rfp_nodes_known d Hwf) (wf_params_minw p Hp) Hpre Hscan).
+Qed.
+
+Print Assumptions rebuild_terminates_mono.
+Print Assumptions rev_journey_no_rebuild_hang_mono.
+Print Assumptions calc_reverse_hang_only_optimize_mono.
+Print Assumptions rebuild_terminates_allnodes_mono.
+Print Assumptions rev_allnodes_loop_hang_only_optimize_mono.
 Print Assumptions rebuild_terminates.
 Print Assumptions rev_journey_no_rebuild_hang.
 Print Assumptions calc_reverse_hang_only_optimize.
